@@ -11,7 +11,7 @@ import numpy as np
 from simkit import model_world as M
 from simkit.core import EventLog, SutError, Violations, canon, sha
 
-RUN_CAP_S = 120
+RUN_CAP_S = 900
 CONT = ("normal", "gamma", "exponential", "beta", "lognormal", "halfnormal", "invgamma", "mvn3")
 TIGHT = 1e-3
 
